@@ -77,17 +77,25 @@ def quad_block(name):
         if name in ('DR', 'DA'):
             eng.assume(p < 1)
         res = m.spreading_pressure(p)
-        eng.prove(f"{base}/quad.one_call_from_zero_to_p/callsite", len(integ.calls) == 1 and integ.calls[0]['a'] == 0 and integ.calls[0]['b'] is p,
-                  extra={'replay': replay})
-        if len(integ.calls) != 1:
+        # the integral of n(p')/p' over (0, p] may be handed to the quadrature in p' or, by the change of variable u = ln p'
+        # (calculus lemma, assumed), as the integral of n(e^u) over (-inf, ln p]
+        c = integ.calls[0] if len(integ.calls) == 1 else None
+        linear = c is not None and not isinstance(c['a'], float) and c['a'] == 0 and c['b'] is p
+        logform = c is not None and isinstance(c['a'], float) and c['a'] == float('-inf') and sx.eq(c['b'], sx.sym_log(p)) is not False
+        eng.prove(f"{base}/quad.one_call_from_zero_to_p/callsite", bool(linear) or (bool(logform) and sx.eq(c['b'], sx.sym_log(p))),
+                  extra={'replay': replay, 'observed': None if c is None else f"[{c['a']}, {c['b']}]"})
+        if c is None:
             return
-        c = integ.calls[0]
         eng.prove(f"{base}/quad.returns_integral_value/callsite", res is c['value'], extra={'replay': replay})
         x = eng.real('x', positive=True)
         if name in ('DR', 'DA'):
             eng.assume(x < 1)
-        fx = c['f'](x)
-        want = m.loading(x) / x
+        if linear:
+            fx = c['f'](x)
+            want = m.loading(x) / x
+        else:
+            fx = c['f'](sx.sym_log(x))  # the integrand at u = ln x must be n(x)
+            want = m.loading(x)
         eng.prove(f"{base}/quad.integrand_is_loading_over_pressure/closure", sx.eq(fx, want), extra={'replay': replay})
 
     return collect(eng, run, base, 'quad')
@@ -129,7 +137,12 @@ def point_block(block):
             for i in range(n):
                 eng.assume(ps[i] > (ps[i - 1] if i else 0))
                 eng.assume(ls[i] > (ls[i - 1] if i else 0))
-            if history:
+            if history == 'desorption_branch_stored_high_to_low':
+                # the same points marked as desorption and stored in measurement order (decreasing pressure)
+                iso.data_raw.cols['pressure'] = list(ps)[::-1]
+                iso.data_raw.cols['loading'] = list(ls)[::-1]
+                iso.data_raw.cols['branch'] = [1] * n
+            elif history:
                 # the isotherm was used before (its interpolator exists) and then converted in place by the real method:
                 # the integral is that of the data as stored *now*
                 q0 = eng.real('q0', positive=True)
@@ -158,7 +171,7 @@ def point_block(block):
                 k = int(where.split(':')[1])
                 eng.assume((q > P_[k]) & (q < P_[k + 1]))
             try:
-                r = iso.spreading_pressure_at(q, interp_fill=fill, **unit_kw)
+                r = iso.spreading_pressure_at(q, interp_fill=fill, **unit_kw, **({'branch': 'des'} if history == 'desorption_branch_stored_high_to_low' else {}))
                 out = 'return'
             except E.CalculationError:
                 out = 'CalculationError'
@@ -220,7 +233,7 @@ def point_cfgs(tier):
                 out.append((n, w, fill, {}))
         if n == 3:
             for w in ('below', 'between:0', 'between:1', 'at_last'):
-                for h in ('used+convert_loading(unit_to=mol)', 'used+convert_pressure(unit_to=kPa)'):
+                for h in ('used+convert_loading(unit_to=mol)', 'used+convert_pressure(unit_to=kPa)', 'desorption_branch_stored_high_to_low'):
                     out.append((n, w, None, {}, h))
         for w in ('below', 'between:0', 'at_last'):
             out.append((n, w, None, {'pressure_unit': 'Pa'}))
